@@ -305,11 +305,11 @@ static void run_ptr(long k, const unsigned char *msg, int len, int variant)
 /* negative length: every parser must answer ARES_EBADRESP without touching the message */
 static void run_neg(long k, const unsigned char *msg)
 {
-  struct hostent          *h  = NULL;
+  struct hostent          *h  = SENT; /* out-parameter poison, reused from call to call */
   struct ares_addrttl      t4[2];
   struct ares_addr6ttl     t6[2];
   int                      n4 = 2, n6 = 2;
-  void                    *o  = NULL;
+  void                    *o  = SENT;
   long                     live0 = live_allocs;
   printf("%ld NEG", k);
   printf(" %d", ares_parse_a_reply(msg, -1, &h, t4, &n4));
@@ -338,7 +338,7 @@ typedef fres_t (*fcall_t)(const unsigned char *msg, int len, int variant);
 static fres_t f_addr(const unsigned char *msg, int len, int variant)
 {
   /* variant: 0 = a host only, 1 = a array only, 2 = aaaa host only, 3 = aaaa array only */
-  struct hostent      *host = NULL;
+  struct hostent      *host = SENT;
   struct ares_addrttl  t4[4];
   struct ares_addr6ttl t6[4];
   int                  n = 4;
@@ -347,16 +347,18 @@ static fres_t f_addr(const unsigned char *msg, int len, int variant)
   else if (variant == 1) r.st = ares_parse_a_reply(msg, len, NULL, t4, &n);
   else if (variant == 2) r.st = ares_parse_aaaa_reply(msg, len, &host, NULL, NULL);
   else r.st = ares_parse_aaaa_reply(msg, len, NULL, t6, &n);
+  if (host == SENT) host = NULL;
   r.out = host != NULL;
   ares_free_hostent(host);
   return r;
 }
 static fres_t f_ns(const unsigned char *msg, int len, int variant)
 {
-  struct hostent *host = NULL;
+  struct hostent *host = SENT;
   fres_t          r;
   (void)variant;
   r.st  = ares_parse_ns_reply(msg, len, &host);
+  if (host == SENT) host = NULL;
   r.out = host != NULL;
   ares_free_hostent(host);
   return r;
@@ -374,10 +376,11 @@ static fres_t f_ptr(const unsigned char *msg, int len, int variant)
 #define F_LIST(fn, call, type)                                    \
   static fres_t fn(const unsigned char *msg, int len, int variant) \
   {                                                                \
-    type  *out = NULL;                                             \
+    type  *out = SENT;                                             \
     fres_t r;                                                      \
     (void)variant;                                                 \
     r.st  = call(msg, len, &out);                                  \
+    if (out == SENT) out = NULL;                                   \
     r.out = out != NULL;                                           \
     ares_free_data(out);                                           \
     return r;                                                      \
@@ -410,7 +413,7 @@ static void sweep(long k, const char *name, int variant, fcall_t f, const unsign
 
 static void sweep_all(long k, const unsigned char *msg, int len)
 {
-  ares_dns_record_t *rec = NULL;
+  ares_dns_record_t *rec = SENT;
   long               nparse;
   alloc_calls = 0; fail_at = 0;
   if (ares_dns_parse(msg, (size_t)len, 0, &rec) != ARES_SUCCESS) return;
